@@ -495,7 +495,7 @@ def bincount_form(form, h, depth, rmin, rmax, nbin, ra1, dec1, ra2, dec2, sc, id
     elif form == "pyint":
         conv = lambda a: [int(x) for x in a]
     elif form == "2d":
-        conv = lambda a: a.reshape(1, -1) if a.size % 2 else np.asfortranarray(a.reshape(2, -1))
+        conv = lambda a: a.reshape(1, -1) if a.size % 2 else a.reshape(2, -1)
         pre = dict(htmid2=id2.reshape(-1, 1), htmrev2=rev)
     if conv is not None:
         args = [conv(a) for a in pos]
